@@ -82,6 +82,11 @@ def writer_transform(ctx, fn, expr):
     """(transform tag, self attribute the value derives from, element class for 'dicts')."""
     prog = ctx.prog
     e = _inline(fn, expr)
+    # `value if <present> else None`: classify the non-None alternative
+    if isinstance(e, ast.IfExp):
+        alts = [x for x in (e.body, e.orelse) if not (isinstance(x, ast.Constant) and x.value is None)]
+        if len(alts) == 1:
+            return writer_transform(ctx, fn, alts[0])
     sn = fn.self_name
     attr = None
     for n in ast.walk(e):
@@ -663,11 +668,19 @@ def d5(ctx, rep):
         t = last[-1]
         mem = [x.attr for x in ast.walk(t) if isinstance(x, ast.Attribute) and isinstance(x.value, ast.Name) and x.value.id == 'TreeTypes']
         clsq = prog.resolve(gt.module, p.end.value.func) if isinstance(p.end.value, ast.Call) else None
+        if clsq not in prog.classes and isinstance(p.end.value, ast.Call) and isinstance(p.end.value.func, ast.Name):
+            # return tree_class() with tree_class assigned on this path
+            last = [s_ for s_ in p.stmts if isinstance(s_, ast.Assign) and isinstance(s_.targets[0], ast.Name) and s_.targets[0].id == p.end.value.func.id]
+            if last:
+                clsq = prog.resolve(gt.module, last[-1].value)
         if mem and clsq in prog.classes:
             covered[mem[-1]] = prog.classes[clsq]
     for m in tenum.attrs:
         c = covered.get(m)
         tt = c.attrs.get('tree_type') if c else None
+        if c is None and not covered:
+            rep.undecided('D5.dispatch', gt, gt.node.name, 'dispatch of get_tree not recognised', construct=f'TreeTypes.{m}')
+            continue
         good = c is not None and isinstance(tt, ast.Attribute) and tt.attr == m
         rep.check('D5.dispatch', gt, gt.node.name, good, f'TreeTypes.{m} -> {c.name if c else None}',
                   f'get_tree does not return the tree class whose tree_type is TreeTypes.{m}', construct=f'TreeTypes.{m}')
